@@ -1,0 +1,207 @@
+//go:build verif
+
+package x509
+
+import (
+	"crypto/x509/pkix"
+	"encoding/asn1"
+	"math/big"
+)
+
+// Access to encoding/asn1.Unmarshal with the unexported destination types of this
+// package for the verification harness (/verif, property C18; the schemas of these
+// types are translated into coq/Gen/Asn1Schemas.v).  Nothing here changes behaviour.
+//
+// A root name is "x509." followed by the Go type expression as written inside this
+// package.
+
+// verifAsn1New returns a pointer to a fresh zero value of the named root type, nil
+// if the name is unknown; modelled tells whether Gen/Asn1Schemas.v has a schema.
+func verifAsn1New(name string) (dst interface{}, modelled bool) {
+	switch name {
+	// x509.go
+	case "x509.certificate":
+		return new(certificate), true
+	case "x509.tbsCertificate":
+		return new(tbsCertificate), true
+	case "x509.validity":
+		return new(validity), true
+	case "x509.publicKeyInfo":
+		return new(publicKeyInfo), true
+	case "x509.certificateRequest":
+		return new(certificateRequest), true
+	case "x509.tbsCertificateRequest":
+		return new(tbsCertificateRequest), true
+	case "x509.pkix.AlgorithmIdentifier":
+		return new(pkix.AlgorithmIdentifier), true
+	case "x509.pkix.Extension":
+		return new(pkix.Extension), true
+	case "x509.[]pkix.Extension":
+		return new([]pkix.Extension), true
+	case "x509.pkix.CertificateList":
+		return new(pkix.CertificateList), true
+	case "x509.pkix.RDNSequence":
+		return new(pkix.RDNSequence), true
+	case "x509.pkix.AttributeTypeAndValueSET":
+		return new(pkix.AttributeTypeAndValueSET), true
+	case "x509.pssParameters":
+		return new(pssParameters), true
+	case "x509.dsaSignature":
+		return new(dsaSignature), true
+	case "x509.ecdsaSignature":
+		return new(ecdsaSignature), true
+	case "x509.rsaPublicKey":
+		return new(rsaPublicKey), true
+	case "x509.*big.Int":
+		return new(*big.Int), true
+	case "x509.dsaAlgorithmParameters":
+		return new(dsaAlgorithmParameters), true
+	case "x509.asn1.ObjectIdentifier":
+		return new(asn1.ObjectIdentifier), true
+	case "x509.asn1.RawValue":
+		return new(asn1.RawValue), true
+	case "x509.asn1.BitString":
+		return new(asn1.BitString), true
+	case "x509.basicConstraints":
+		return new(basicConstraints), true
+	case "x509.[]distributionPoint":
+		return new([]distributionPoint), true
+	case "x509.distributionPoint":
+		return new(distributionPoint), true
+	case "x509.distributionPointName":
+		return new(distributionPointName), true
+	case "x509.authKeyId":
+		return new(authKeyId), true
+	case "x509.[]asn1.ObjectIdentifier":
+		return new([]asn1.ObjectIdentifier), true
+	case "x509.[]byte":
+		return new([]byte), true
+	case "x509.[]policyInformation":
+		return new([]policyInformation), true
+	case "x509.policyInformation":
+		return new(policyInformation), true
+	case "x509.[]authorityInfoAccess":
+		return new([]authorityInfoAccess), true
+	case "x509.authorityInfoAccess":
+		return new(authorityInfoAccess), true
+	case "x509.[]asn1.RawValue":
+		return new([]asn1.RawValue), true
+	// pkcs1.go
+	case "x509.pkcs1PrivateKey":
+		return new(pkcs1PrivateKey), true
+	case "x509.pkcs1AdditionalRSAPrime":
+		return new(pkcs1AdditionalRSAPrime), true
+	// pkcs7.go
+	case "x509.contentInfo":
+		return new(contentInfo), true
+	case "x509.signedData":
+		return new(signedData), true
+	case "x509.unsignedData":
+		return new(unsignedData), true
+	case "x509.envelopedData":
+		return new(envelopedData), true
+	case "x509.recipientInfo":
+		return new(recipientInfo), true
+	case "x509.signerInfo":
+		return new(signerInfo), true
+	case "x509.issuerAndSerial":
+		return new(issuerAndSerial), true
+	case "x509.attribute":
+		return new(attribute), true
+	case "x509.encryptedContentInfo":
+		return new(encryptedContentInfo), true
+	case "x509.rawCertificates":
+		return new(rawCertificates), true
+	case "x509.aesGCMParameters":
+		return new(aesGCMParameters), true
+	// pkcs8.go
+	case "x509.pkixPublicKey":
+		return new(pkixPublicKey), true
+	case "x509.sm2PrivateKey":
+		return new(sm2PrivateKey), true
+	case "x509.pkcs8":
+		return new(pkcs8), true
+	case "x509.EncryptedPrivateKeyInfo":
+		return new(EncryptedPrivateKeyInfo), true
+	case "x509.Pbes2Algorithms":
+		return new(Pbes2Algorithms), true
+	case "x509.Pbes2Params":
+		return new(Pbes2Params), true
+	case "x509.Pbes2KDfs":
+		return new(Pbes2KDfs), true
+	case "x509.Pbes2Encs":
+		return new(Pbes2Encs), true
+	case "x509.Pkdf2Params":
+		return new(Pkdf2Params), true
+	// no schema in Gen/Asn1Schemas.v (string field with the ia5 option)
+	case "x509.nameConstraints":
+		return new(nameConstraints), false
+	case "x509.generalSubtree":
+		return new(generalSubtree), false
+	}
+	return nil, false
+}
+
+var verifAsn1AllNames = []string{
+	"x509.certificate", "x509.tbsCertificate", "x509.validity", "x509.publicKeyInfo",
+	"x509.certificateRequest", "x509.tbsCertificateRequest",
+	"x509.pkix.AlgorithmIdentifier", "x509.pkix.Extension", "x509.[]pkix.Extension",
+	"x509.pkix.CertificateList", "x509.pkix.RDNSequence", "x509.pkix.AttributeTypeAndValueSET",
+	"x509.pssParameters", "x509.dsaSignature", "x509.ecdsaSignature", "x509.rsaPublicKey",
+	"x509.*big.Int", "x509.dsaAlgorithmParameters", "x509.asn1.ObjectIdentifier",
+	"x509.asn1.RawValue", "x509.asn1.BitString", "x509.basicConstraints",
+	"x509.[]distributionPoint", "x509.distributionPoint", "x509.distributionPointName",
+	"x509.authKeyId", "x509.[]asn1.ObjectIdentifier", "x509.[]byte",
+	"x509.[]policyInformation", "x509.policyInformation",
+	"x509.[]authorityInfoAccess", "x509.authorityInfoAccess", "x509.[]asn1.RawValue",
+	"x509.pkcs1PrivateKey", "x509.pkcs1AdditionalRSAPrime",
+	"x509.contentInfo", "x509.signedData", "x509.unsignedData", "x509.envelopedData",
+	"x509.recipientInfo", "x509.signerInfo", "x509.issuerAndSerial", "x509.attribute",
+	"x509.encryptedContentInfo", "x509.rawCertificates", "x509.aesGCMParameters",
+	"x509.pkixPublicKey", "x509.sm2PrivateKey", "x509.pkcs8", "x509.EncryptedPrivateKeyInfo",
+	"x509.Pbes2Algorithms", "x509.Pbes2Params", "x509.Pbes2KDfs", "x509.Pbes2Encs",
+	"x509.Pkdf2Params",
+	"x509.nameConstraints", "x509.generalSubtree",
+}
+
+func verifAsn1Select(modelled bool) []string {
+	var out []string
+	for _, n := range verifAsn1AllNames {
+		if dst, m := verifAsn1New(n); dst != nil && m == modelled {
+			out = append(out, n)
+		}
+	}
+	return out
+}
+
+// VerifAsn1Names lists the root names this package can unmarshal into and that have a
+// schema in Gen/Asn1Schemas.v (same strings, without guarantee of order).
+func VerifAsn1Names() []string { return verifAsn1Select(true) }
+
+// VerifAsn1Unmodelled lists the root names VerifAsn1Unmarshal also accepts (real
+// destinations of asn1.Unmarshal in this package) that have no schema in
+// Gen/Asn1Schemas.v.
+func VerifAsn1Unmodelled() []string { return verifAsn1Select(false) }
+
+// VerifAsn1Unmarshal calls encoding/asn1.Unmarshal(b, p), p a pointer to a fresh zero
+// value of the named root type, and returns what it returns; known=false if the name
+// is neither one of VerifAsn1Names nor one of VerifAsn1Unmodelled.
+func VerifAsn1Unmarshal(name string, b []byte) (rest []byte, err error, known bool) {
+	dst, _ := verifAsn1New(name)
+	if dst == nil {
+		return nil, nil, false
+	}
+	rest, err = asn1.Unmarshal(b, dst)
+	return rest, err, true
+}
+
+// VerifAsn1UnmarshalValue is VerifAsn1Unmarshal that also hands back the decoded value
+// (the pointer passed to asn1.Unmarshal), for drivers that compare field contents.
+func VerifAsn1UnmarshalValue(name string, b []byte) (val interface{}, rest []byte, err error, known bool) {
+	dst, _ := verifAsn1New(name)
+	if dst == nil {
+		return nil, nil, nil, false
+	}
+	rest, err = asn1.Unmarshal(b, dst)
+	return dst, rest, err, true
+}
